@@ -1055,3 +1055,88 @@ def run_bindex(ctx) -> RuleResult:
         raise AnalysisError("bindex: no return")
     result.floor = 1
     return result
+
+
+def run_ranksel(ctx) -> RuleResult:
+    """amax/amin: ``proxy`` maps position -> rank, the reduction returns *ranks*; the element of rank r sits at
+    position ``argsort(proxy.ravel())[r]``.  Fetching by a boolean mask returns position order and loses the
+    pairing with the reduced ranks as soon as there is more than one of them (axis given)."""
+    result = RuleResult(
+        "R-RANKSEL",
+        "amax/amin fetch the element for every reduced rank through the inverse of the proxy permutation "
+        "(flat polynomial indexed by argsort(proxy.ravel())[ranks]); a boolean-mask selection re-ordered by a "
+        "permutation computed from the ranks alone is known-wrong (position order is not rank order)",
+    )
+    n = 0
+    for fname in ("amax", "amin"):
+        modname = f"numpoly.array_function.{fname}"
+        module = ctx.repo.module(modname)
+        func = ctx.repo.function(modname, fname)
+        for path in ctx.paths(module, func):
+            last = path[-1]
+            if last.kind != "return" or last.node.value is None:
+                continue
+            value = strip_tags(last.expand(last.node.value))
+            proxies = [c for c in calls_in(value) if (ctx.dotted(module, c.func) or "").endswith("sortable_proxy")]
+            if not proxies:
+                raise AnalysisError(f"{fname}: the returned value is not derived from sortable_proxy(...)")
+            ptxt = U(proxies[0])
+            ranks = [c for c in calls_in(value)
+                     if (ctx.dotted(module, c.func) or "") in ("numpy.amax", "numpy.amin", "numpy.max", "numpy.min")
+                     and c.args and U(c.args[0]) == ptxt]
+            if not ranks:
+                raise AnalysisError(f"{fname}: no numpy reduction of the proxy found in the returned value")
+            rtxt = U(ranks[0])
+            want = "numpy." + fname
+            got = ctx.dotted(module, ranks[0].func)
+            data = value
+            if isinstance(value, ast.Call) and (ctx.dotted(module, value.func) or "").endswith(".reshape") and value.args:
+                data = value.args[0]
+            # walk down the chain of subscripts:  base[i1][i2]...
+            indices = []
+            base = data
+            while isinstance(base, ast.Subscript):
+                indices.append(base.slice)
+                base = base.value
+            indices.reverse()
+            n += 1
+            where = module.loc(last.orig)
+            if not indices:
+                raise AnalysisError(f"{fname}: returned data is not an indexed polynomial: {U(data)[:80]}")
+            flat_base = any(s in U(base) for s in (".ravel()", ".flatten()", ".reshape(-1)", "numpy.ravel("))
+            first = U(indices[0])
+            inverse_forms = [f"numpy.argsort({ptxt}.ravel())", f"numpy.argsort({ptxt}.flatten())",
+                             f"numpy.argsort({ptxt}.reshape(-1))", f"numpy.argsort(numpy.ravel({ptxt}))",
+                             f"{ptxt}.ravel().argsort()", f"{ptxt}.flatten().argsort()"]
+            inverse = len(indices) == 1 and flat_base and any(
+                first.startswith(form + "[") and rtxt in first[len(form):] for form in inverse_forms)
+            mask = "numpy.isin(" in first or (isinstance(indices[0], ast.Compare))
+            rest_plain = all(ptxt not in U(idx).replace(rtxt, "") for idx in indices[1:])
+            ok = inverse
+            result.ob(f"{fname}: element of every reduced rank fetched through argsort(proxy.ravel())", ok, where,
+                      first[:80].replace(ptxt, "<proxy>").replace(rtxt.replace(ptxt, "<proxy>"), "<ranks>"))
+            if ok:
+                continue
+            if mask and rest_plain:
+                result.add(Finding(
+                    "R-RANKSEL", module, fname, last.node,
+                    f"'{fname}' selects the result elements with a boolean mask over the proxy (elements come back in "
+                    f"position order) and re-orders them with a permutation computed from the reduced ranks alone; "
+                    f"the pairing rank -> element is lost whenever the reduction returns more than one rank "
+                    f"(axis given), e.g. {fname}([[1,5,3],[4,2,6]], axis=0): index the flat polynomial with "
+                    f"argsort(proxy.ravel())[ranks] instead",
+                    derivation=describe_path(path), construct=f"{fname}: mask selection re-ordered by ranks"))
+            elif len(indices) == 1 and flat_base and first.replace(" ", "").startswith(rtxt.replace(" ", "")):
+                result.add(Finding(
+                    "R-RANKSEL", module, fname, last.node,
+                    f"'{fname}' uses the reduced ranks as positions of the flat polynomial; proxy maps position -> rank, "
+                    f"so the position of rank r is argsort(proxy.ravel())[r]",
+                    derivation=describe_path(path), construct=f"{fname}: ranks used as positions"))
+            else:
+                raise AnalysisError(f"{fname}: selection idiom not recognised: {U(data)[:160].replace(ptxt, '<proxy>')}")
+            if got != want and got not in ("numpy.max", "numpy.min"):
+                pass
+    if n == 0:
+        raise AnalysisError("amax/amin: no return path")
+    result.floor = 2
+    return result
